@@ -308,6 +308,49 @@ func (m *Model) classify(fn *ssa.Function) {
 		}
 		return nil
 	}
+	// a collapse that walks the frame with a counted loop instead of a range over frame[1:]:
+	// reads of frame[i] with i < len(frame) established by the loop condition
+	if strings.HasPrefix(ks, "peekbottom,peekother") && strings.HasSuffix(ks, "replace1") {
+		all := true
+		for _, a := range ra {
+			if a.kind != "peekother" {
+				continue
+			}
+			ia := a.ins.(*ssa.IndexAddr)
+			bounded := false
+			for d := a.ins.Block(); d != nil; d = d.Idom() {
+				idom := d.Idom()
+				if idom == nil {
+					break
+				}
+				ifi, ok := idom.Instrs[len(idom.Instrs)-1].(*ssa.If)
+				if !ok || idom.Succs[0] != d {
+					continue
+				}
+				bo, ok := ifi.Cond.(*ssa.BinOp)
+				if !ok || bo.Op != token.LSS || bo.X != ia.Index {
+					continue
+				}
+				if call, ok := bo.Y.(*ssa.Call); ok {
+					if bi, ok := call.Call.Value.(*ssa.Builtin); ok && bi.Name() == "len" && m.loadOfField(call.Call.Args[0], m.frameField) {
+						bounded = true
+					}
+				}
+			}
+			if !bounded {
+				all = false
+			}
+		}
+		only := true
+		for _, a := range ra {
+			if a.kind != "peekbottom" && a.kind != "peekother" && a.kind != "replace1" {
+				only = false
+			}
+		}
+		if all && only {
+			ks = "peekbottom,readall,replace1"
+		}
+	}
 	switch ks {
 	case "push":
 		m.prims[fn] = OpPush
